@@ -399,13 +399,29 @@ func FieldOf(v ssa.Value) (base ssa.Value, name string, ok bool) {
 // CalleeName returns a stable name for the static callee ("fmt.Errorf",
 // "(*net/http.Request).SetBasicAuth"), the invoked method for interface
 // calls ("invoke:Close"), or "dynamic".
+// CanonFuncString / CanonMethod are installed by the role model: they give the
+// canonical rendering of a module function whose (unexported) name or receiver
+// type name differs from the one the rules were written against.
+var (
+	CanonFuncString func(f *ssa.Function) string
+	CanonMethod     func(name string) string
+)
+
 func CalleeName(c *ssa.CallCommon) string {
 	if c.IsInvoke() {
+		if CanonMethod != nil {
+			return "invoke:" + CanonMethod(c.Method.Name())
+		}
 		return "invoke:" + c.Method.Name()
 	}
 	if f := c.StaticCallee(); f != nil {
 		if o := f.Origin(); o != nil {
-			return o.String()
+			f = o
+		}
+		if CanonFuncString != nil {
+			if s := CanonFuncString(f); s != "" {
+				return s
+			}
 		}
 		return f.String()
 	}
